@@ -298,6 +298,48 @@ theorem mapM_charPairs {inp : List Char} : ∀ (s : List Char) (a : Nat) (r : Li
     have := ih _ r h2
     simp [charPairs, List.mapM_cons, h1, this, bind, Except.bind, pure, Except.pure]
 
+/-- where no character is a `\uXXXX` escape the loop of `build_string_value` (fix fff8e9c: surrogate pairs) decodes every
+    character on its own -/
+theorem decodeChars_eq_mapM (ctx : Ctx) : ∀ (l : List Pair),
+    (∀ sc ∈ l, ∃ ch, onlyChildOf OC_StringCharacter "StringCharacter" sc = .ok ch ∧ ch.rule ≠ R.EscapedUnicode4) →
+    decodeChars ctx false l = l.mapM (decodeChar ctx) := by
+  intro l
+  induction l with
+  | nil => intro _; rfl
+  | cons sc rest ih =>
+    intro h
+    obtain ⟨ch, hoc, hne⟩ := h sc (List.mem_cons_self ..)
+    have ih' := ih fun x hx => h x (List.mem_cons_of_mem _ hx)
+    rw [decodeChars, hoc]
+    show (if ch.rule = R.EscapedUnicode4 then _ else _) = _
+    rw [if_neg hne, ih', List.mapM_cons]
+    cases decodeChar ctx sc with
+    | error e => rfl
+    | ok c => cases List.mapM (decodeChar ctx) rest <;> rfl
+
+theorem charPair_child (c : Char) (a : Nat) :
+    ∃ ch, onlyChildOf OC_StringCharacter "StringCharacter" (charPair c a) = .ok ch ∧ ch.rule ≠ R.EscapedUnicode4 := by
+  unfold charPair
+  split
+  · exact ⟨.mk R.EscapedCharacter a (a + 2) [], by
+      simp [onlyChildOf, onlyChild, Pair.children, Pair.rule, OC_StringCharacter, bind, Except.bind],
+      by simp [Pair.rule, R.EscapedCharacter, R.EscapedUnicode4]⟩
+  · exact ⟨.mk R.NormalStringCharacter a (a + 1) [], by
+      simp [onlyChildOf, onlyChild, Pair.children, Pair.rule, OC_StringCharacter, bind, Except.bind],
+      by simp [Pair.rule, R.NormalStringCharacter, R.EscapedUnicode4]⟩
+
+theorem charPairs_children : ∀ (s : List Char) (a : Nat), ∀ sc ∈ charPairs s a,
+    ∃ ch, onlyChildOf OC_StringCharacter "StringCharacter" sc = .ok ch ∧ ch.rule ≠ R.EscapedUnicode4 := by
+  intro s
+  induction s with
+  | nil => intro a sc h; cases h
+  | cons c cs ih =>
+    intro a sc h
+    simp only [charPairs, List.mem_cons] at h
+    rcases h with rfl | h
+    · exact charPair_child c a
+    · exact ih _ sc h
+
 /-- `build_string_value` on the pair tree of the canonical literal of `s` returns `s` (and the position of the
     literal) -/
 theorem stringValueChars_stringPair {inp : List Char} (s : List Char) (p : Nat) (rest : List Char)
@@ -312,8 +354,10 @@ theorem stringValueChars_stringPair {inp : List Char} (s : List Char) (p : Nat) 
     have h' : inp.drop (p + 1) = specEscape (c :: cs) ++ ('"' :: rest) := by
       rw [← List.drop_drop, h]; simp [quoted]
     have hm := mapM_charPairs (inp := inp) (c :: cs) (p + 1) _ h'
+    have hd := decodeChars_eq_mapM (Ctx.spec inp) _ (charPairs_children (c :: cs) (p + 1))
+    rw [hm] at hd
     simp [stringValueChars, stringPair, onlyChildOf, onlyChild, Pair.children, Pair.rule, OC_StringValue,
-      hm, bind, Except.bind, R.NormalStringValue, R.EmptyStringValue, R.BlockStringValue]
+      hd, bind, Except.bind, R.NormalStringValue, R.EmptyStringValue, R.BlockStringValue]
     rfl
 
 end NitroVerif.StringParse
